@@ -614,3 +614,12 @@ Proof.
   split; [reflexivity|]. split; [reflexivity|]. split; [reflexivity|].
   split; [vm_compute; lia | vm_compute; reflexivity].
 Qed.
+
+(** What the correspondence compares with the implementation - the simulator's run of a scenario -
+    is a run of the LTS the theorems above quantify over: every simulator step is a (possibly
+    empty) sequence of LTS steps, for every scenario without a creator that crashed in the middle
+    of its write (that content patch is outside the LTS by design). *)
+Theorem C08_simulation_is_an_LTS_run : forall c fuel horizon m, no_garbage_crash (script m) ->
+  exists ls, run c (sst m) ls = Some (sst (simulate c fuel horizon m)).
+Proof. intros c fuel. exact (simulate_refines_lts c fuel). Qed.
+Print Assumptions C08_simulation_is_an_LTS_run.
